@@ -562,6 +562,10 @@ pub fn replay(c: &Value) -> Vec<(String, String)> {
     if c["type"] == "bounded" {
         return bounded_case(&text, &tts, c["cap"].as_u64().unwrap_or(0) as usize, c["twoval"].as_bool().unwrap_or(false));
     }
+    if c["type"] == "builtin" && c.get("sparse").is_some() {
+        let l = crate::mid::sparse(c["sparse"].as_u64().unwrap_or(0));
+        return builtin_case_o(&text, &crate::mid::Oracle::from_formulas(&l), c["heuristic"].as_u64().unwrap_or(0) as usize, c["seed"].as_u64(), &mut st);
+    }
     if c["type"] == "builtin" && c.get("ring").is_some() {
         let l = crate::mid::ring(c["ring"]["n"].as_u64().unwrap_or(6) as usize, c["ring"]["index"].as_u64().unwrap_or(0));
         return builtin_case_o(&text, &crate::mid::Oracle::from_formulas(&l), c["heuristic"].as_u64().unwrap_or(0) as usize, c["seed"].as_u64(), &mut st);
